@@ -37,6 +37,10 @@ func checkC08(c *Ctx, r *Report) {
 	c08Consist(c, r, a)
 	c08Meta(c, r)
 	c08Bind(c, r)
+	r.rule("C08.METADOM", "every reflect.Type recorded in or compared with Object.meta / Input.meta is derived from an object in the same way (all raw, or all pointer-stripped); parameters are followed to their in-package call sites")
+	c08MetaDom(c, r, "C08.METADOM")
+	r.rule("C08.SCAN", "the Go-type -> object-type lookup loop over the type table reaches the comparison with Object.meta for every *Object element (only the type assertion, nil tests and the range condition guard it)")
+	c08Scan(c, r, "C08.SCAN")
 }
 
 func c08Dispatch(c *Ctx, r *Report, a *Anchors) {
@@ -319,7 +323,7 @@ func c08Cond(c *Ctx, r *Report, a *Anchors) {
 
 func c08Meta(c *Ctx, r *Report) {
 	allowed := map[string]string{
-		"(*Root).assureType": "explicit or first-use registration of the Go type of an object",
+		"(*Root).assureType":  "explicit or first-use registration of the Go type of an object",
 		"(*Object).metaCheck": "union member discovery by @go directive or type name",
 	}
 	r.Tables["object_meta_writers"] = allowed
